@@ -340,6 +340,9 @@ UPGRADER:
 				p.statusCode = 0
 				p.status = ""
 				p.nextState(stateStatusLF)
+			case '\n':
+				// a bare LF must not be swallowed into the reason phrase.
+				return ErrCRExpected
 			}
 		case stateStatusLF:
 			if c == '\n' {
